@@ -457,9 +457,9 @@ Judge ==
              /\ (~HasTwin(p) \/
                    /\ ("r1both" \notin DOMAIN Recs[p] \/ JudgeUnit(p, 2, World(p, 2, v_val, MemOf(v_mem))))
                    /\ \A n \in CmpNamesT[p] : CheckTwin(p, n, w, v_out[1], InpOf(p, 1, v_val), v_out[2], InpOf(p, 2, v_val)))
-Settles == (v_tick = MaxTick(v_pid) /\ ~v_settled) => Fail(v_pid, "C01_settles", [val |-> v_val, ticks |-> v_tick])
+Settles == (v_tick = MaxTick(v_pid) /\ ~v_settled) => (Bump(7, v_pid) /\ Fail(v_pid, "C01_settles", [val |-> v_val, ticks |-> v_tick]))
 
 Summary == \A p \in PIDs : PrintT(<<"SUMMARY", Recs[p].id, TLCGet(Reg(1, p)), TLCGet(Reg(0, p)), TLCGet(Reg(2, p)), TLCGet(Reg(3, p)),
                                     Cardinality(OutNamesT[p]), NotJudgedT[p],
-                                    TLCGet(Reg(5, p)), TLCGet(Reg(6, p))>>)
+                                    TLCGet(Reg(5, p)), TLCGet(Reg(6, p)), TLCGet(Reg(7, p))>>)
 =============================================================================
